@@ -149,7 +149,9 @@ def nonceLookup (script : Script) (fromRaw : Json) (nonce : Option Nat) : NonceL
       let res := syncRequest script (Json.str "internal") "eth_getTransactionCount"
       if res.2 then .failed [countFwd a]
       else match res.1.result.bind fun v => hexIntOf v with
-        | some n => .got [countFwd a] n
+        | some (some k) => .got [countFwd a] (some k)
+        | some none =>      -- a null result leaves the nonce nil
+          if Gen.ProxyFacts.nullNonceRejected then .failed [countFwd a] else .got [countFwd a] none
         | none => .failed [countFwd a]
 
 /-- `wallet.Sign` + forward: only for an address the wallet holds -/
